@@ -320,13 +320,22 @@ class PModule:
             return False
 
     def get(self, name):
+        # while a top-level statement of this module is being executed, a
+        # name means what the statements *before* it made of it (python
+        # executes a module top to bottom): `x = a; x += b; x += c` must not
+        # run `x += c` while evaluating the right-hand side of `x += b`
+        limit = min(self.running) if self.running else None
+        writers = list(self.writers.get(name, ()))
+        if limit is not None and name in self.ns:
+            earlier = [i for i in writers if i < limit]
+            if earlier or any(i in self.running for i in writers):
+                writers = earlier
         if name in self.ns and not any(
-            i not in self.done and i not in self.running
-            for i in self.writers.get(name, ())
+            i not in self.done and i not in self.running for i in writers
         ):
             return self.ns[name]
         if name in self.writers:
-            for i in self.writers[name]:
+            for i in writers:
                 if i in self.done or i in self.running:
                     continue
                 self.running.add(i)
